@@ -113,7 +113,7 @@ def run(ctx):
     # ---- leg T: seeded random cases at real scale
     trt = os.path.join(ctx.work, "c15_trace_t.ndjson")
     rc, out, _ = ctx.gotest("kernel", "kfmt", HARNESS, "TestVerifC15Random",
-                            env={"NCASES": 3000 if q else 60000, "TRACE_OUT": trt}, timeout=900)
+                            env={"NCASES": 3000 if q else 150000, "TRACE_OUT": trt}, timeout=900)
     if rc != 0:
         raise vlib.Broken("kfmt random harness failed:\n" + out[-3000:])
 
